@@ -30,6 +30,7 @@ theorem stepG_shape (keep : Bool) (s : Option Hist) (op : Op) :
     | overwrite f k rows => left; simp [stepG]
     | delete p => left; simp [stepG]
     | restore v => left; simp [stepG]
+    | restoreAt hv v => left; simp [stepG]
   | some h =>
     cases op with
     | create stable f k rows => left; simp [stepG]
@@ -51,6 +52,13 @@ theorem stepG_shape (keep : Bool) (s : Option Hist) (op : Op) :
       split
       · left; rfl
       · right; left; exact ⟨h, _, rfl, rfl, rfl⟩
+    | restoreAt hv v =>
+      simp only [stepG]
+      split
+      · left; rfl
+      · split
+        · left; rfl
+        · right; left; exact ⟨h, _, rfl, rfl, rfl⟩
 
 /-! ### row ids -/
 
@@ -125,6 +133,20 @@ theorem inv_step {h h' : Hist} {op : Op} (hs : h.stable = true) (hi : Inv h)
       · simp only [ids, restored, List.append_nil]
       · intro q hq; simp at hq
       · simp only [restored, if_true]; omega
+  | restoreAt hv v =>
+    simp only [stepG] at hst
+    split at hst
+    · cases hst; exact ⟨hi, hs⟩
+    · split at hst
+      · cases hst; exact ⟨hi, hs⟩
+      · rename_i old hl
+        cases hst
+        refine ⟨?_, hs⟩
+        refine inv_push (m0 := old) (A := ids old) (B := [])
+          hi (lookup_mem hl).1 ?_ (List.Sublist.refl _) ?_ (by simp) ?_
+        · simp only [ids, restored, List.append_nil]
+        · intro q hq; simp at hq
+        · simp only [restored, if_true]; omega
 
 /-! ### fragment ids -/
 
@@ -175,6 +197,21 @@ theorem finv_step {h h' : Hist} {op : Op} (hi : FInv h) (hst : (stepG true (some
       · intro i hb
         simp only [restored, if_true]
         exact optMax_right hb
+  | restoreAt hv v =>
+    simp only [stepG] at hst
+    split at hst
+    · cases hst; exact hi
+    · split at hst
+      · cases hst; exact hi
+      · rename_i old hl
+        cases hst
+        refine finv_push hi ?_ ?_
+        · intro g hg
+          simp only [restored, if_true]
+          exact optMax_right (hi.fbound old (lookup_mem hl).1 g hg)
+        · intro i hb
+          simp only [restored, if_true]
+          exact optMax_right hb
 
 /-! ### version numbers -/
 
@@ -220,6 +257,7 @@ theorem good_step {s : Option Hist} (op : Op) (hg : Good s) : Good (stepG true s
     | overwrite f k rows => simp [stepG] at hst
     | delete p => simp [stepG] at hst
     | restore v => simp [stepG] at hst
+    | restoreAt hv v => simp [stepG] at hst
   | some h =>
     obtain ⟨h1, h2, h3⟩ := hg h rfl
     refine ⟨?_, finv_step h2 hst, ?_⟩
